@@ -408,4 +408,13 @@ SPEC = {
                      "adapt_vc_coupling": V, "adapt_increment": V, "refracs": R, "refrac_lock": B}))},
         },
     },
+    "ConvSites": {
+        "sites": {
+            "Conv2D_outsize": {
+                "file": "inferno/neural/connections/conv.py", "cls": "Conv2D", "method": "__init__",
+                "target": "(self.outheight, self.outwidth)", "peel": ["genelt"],
+                "rename": {"self.padding[d]": "padding", "self.dilation[d]": "dilation", "self.kernel[d]": "kernel", "self.stride[d]": "stride"},
+                "params": {"size": "zint", "padding": "zint", "dilation": "zint", "kernel": "zint", "stride": "zint"}},
+        },
+    },
 }
